@@ -1,75 +1,118 @@
 // Command dbft: trace-validation + safety/liveness oracle stream for C19.
+//
+// Every case builds a cluster of real consensus.Service instances (4 validators; the thorough
+// tier also 7), each on its own real Blockchain, connected by a harness-owned network and a
+// harness-owned clock (consensus.VerifSetTimer), and runs one PRNG-drawn schedule against it:
+// an adversarial prefix (delay, reorder, duplicate, drop, timeouts in any order, up to f
+// validators silent, differing mempools) followed by the fair schedule. ops.txt carries the
+// trace for the Lean driver (which checks every step is enabled in the protocol model),
+// oracle.txt the failures of the property's oracles on the real run.
 package main
 
 import (
 	"fmt"
 	"os"
 	"time"
+
+	"github.com/nspcc-dev/neo-go/pkg/core/block"
+	"github.com/nspcc-dev/neo-go/pkg/core/transaction"
+	"github.com/nspcc-dev/neo-go/pkg/util"
+
+	"verif/harness/internal/hx"
+	"verif/harness/internal/prng"
 )
 
+func profileFor(r *prng.R, k int, thorough bool) profile {
+	switch k % 5 {
+	case 0: // the synchronous network only
+		return profile{name: "fair", steps: 0, fairBlocks: 12}
+	case 1: // mild: reordering, few timeouts
+		return profile{name: "reorder", wDeliver: 80, wDrop: 1, wDup: 4, wTimer: 3, wSilence: 1, wTx: 4, wGive: 6, wRelay: 2, steps: 600, fairBlocks: 3}
+	case 2: // lossy
+		return profile{name: "lossy", wDeliver: 60, wDrop: 12, wDup: 6, wTimer: 8, wSilence: 2, wTx: 4, wGive: 5, wRelay: 3, steps: 600, fairBlocks: 3}
+	case 3: // timer storm: views diverge
+		return profile{name: "timers", wDeliver: 50, wDrop: 4, wDup: 4, wTimer: 25, wSilence: 3, wTx: 3, wGive: 5, wRelay: 3, steps: 600, fairBlocks: 3}
+	default: // silence-heavy
+		return profile{name: "silence", wDeliver: 60, wDrop: 3, wDup: 3, wTimer: 12, wSilence: 8, wTx: 4, wGive: 5, wRelay: 4, steps: 600, fairBlocks: 3}
+	}
+}
+
 func main() {
-	dir, _ := os.MkdirTemp("", "dbft")
-	defer os.RemoveAll(dir)
-	t0 := time.Now()
-	c, err := newCluster(dir, clusterOpts{n: 4, maxTxPerBlock: 10, verbose: os.Getenv("V") != ""})
+	f := hx.ParseFlags()
+	o := hx.NewOut(f.Out)
+	defer o.Close()
+	dir, err := os.MkdirTemp("", "verif-dbft")
 	if err != nil {
 		panic(err)
 	}
-	fmt.Println("cluster", time.Since(t0))
-	if err := c.start(); err != nil {
-		panic(err)
-	}
-	fmt.Println("started", time.Since(t0))
-	for round := 0; round < 30; round++ {
-		// deliver everything
-		progress := true
-		for progress {
-			progress = false
-			for _, nd := range c.nodes {
-				out, puts, views, errs := nd.collect()
-				for _, e := range out {
-					progress = true
-					for _, dst := range c.nodes {
-						if dst == nd {
-							continue
-						}
-						if err := dst.srv.OnPayload(e); err != nil {
-							panic(err)
-						}
-						if err := dst.sync(); err != nil {
-							panic(err)
-						}
-					}
-				}
-				for _, p := range puts {
-					fmt.Printf("n%d put block %d %s err=%v\n", nd.idx, p.b.Index, p.b.Hash().StringLE()[:8], p.err)
-				}
-				_ = views
-				for _, e := range errs {
-					fmt.Println("n", nd.idx, "ERR", e)
+	defer os.RemoveAll(dir)
+	thorough := f.Tier == "thorough"
+	n := f.N(40, 600)
+	verbose := os.Getenv("DBFT_VERBOSE") != ""
+	t0 := time.Now()
+	for k := 0; k < n; k++ {
+		if !f.Want(k) {
+			continue
+		}
+		r := prng.ForCase(f.Seed, k)
+		o.Case(k)
+		nv := 4
+		if thorough && k%4 == 3 {
+			nv = 7
+		}
+		pf := profileFor(r, k, thorough)
+		if thorough {
+			pf.steps *= 2
+		}
+		opts := clusterOpts{n: nv, verbose: verbose, stateRoot: r.Chance(1, 4), maxTxPerBlock: uint16(2 + r.Intn(6)), memPoolSize: 50}
+		cl, err := newCluster(dir, opts)
+		if err != nil {
+			fmt.Fprintln(os.Stderr, "cluster:", err)
+			os.Exit(3)
+		}
+		run := &run{o: o, k: k, r: r, cl: cl, dec: newDecoder(cl), pf: pf, silent: map[int]bool{},
+			txs: map[util.Uint256]*transaction.Transaction{}, committed: map[uint32]*block.Block{}, maxTx: int(opts.maxTxPerBlock)}
+		run.line(fmt.Sprintf("init %d", nv))
+		for _, nd := range cl.nodes {
+			nd.srv.Start()
+			run.line(fmt.Sprintf("start %d", nd.idx))
+			run.settle(nd)
+		}
+		// some transactions to start with
+		for i := r.Intn(4); i > 0; i-- {
+			var to []int
+			for j := range cl.nodes {
+				if r.Chance(3, 4) {
+					to = append(to, j)
 				}
 			}
+			run.injectTx(to)
 		}
-		// fire earliest
-		var best *node
-		var bd int64
-		for _, nd := range c.nodes {
-			armed, _, _, d := nd.tm.state()
-			if armed && (best == nil || d < bd) {
-				best, bd = nd, d
-			}
+		run.adversarial()
+		if run.machinery == nil {
+			run.fair(pf.fairBlocks)
 		}
-		if best == nil {
-			fmt.Println("no timers")
-			break
+		if run.machinery == nil {
+			run.final()
 		}
-		_, h, v, _ := best.tm.state()
-		fmt.Printf("fire n%d h=%d v=%d at %v\n", best.idx, h, v, time.Duration(bd))
-		best.tm.fire()
-		if err := best.sync(); err != nil {
-			panic(err)
+		_, hi := run.heights()
+		o.Count("profile:" + pf.name)
+		o.Count(fmt.Sprintf("validators:%d", nv))
+		o.Add("heights", int(hi))
+		o.Add("events", run.events)
+		o.Count(fmt.Sprintf("max-view:%d", min(int(run.maxView), 4)))
+		o.Seen(fmt.Sprintf("%s/%d/%d/%d/%d", pf.name, nv, hi, run.events, run.maxView))
+		if k < 3 {
+			o.Sample(fmt.Sprintf("case %d: profile %s, %d validators, %d events, reached height %d, max view %d", k, pf.name, nv, run.events, hi, run.maxView))
+		}
+		cl.close()
+		if run.machinery != nil {
+			fmt.Fprintf(os.Stderr, "case %d: harness machinery failed: %v\n", k, run.machinery)
+			o.Close()
+			os.Exit(4)
+		}
+		if verbose {
+			fmt.Fprintf(os.Stderr, "case %d done: height %d events %d fails %d (%.1fs)\n", k, hi, run.events, run.fails, time.Since(t0).Seconds())
 		}
 	}
-	fmt.Println("done", time.Since(t0))
-	c.close()
 }
